@@ -432,6 +432,7 @@ type DAGOpts struct {
 	Wide        bool // manifests with many layers (contended permits)
 	FewBytes    bool // blobs drawn from three byte strings only (aliases under several media types)
 	EmbMeta     bool // index children may carry annotations / artifactType on the embedding descriptor
+	BlobRich    bool // at least six nodes, images with >= 3 layers, artifacts with >= 2 blobs
 }
 
 var defaultATs = []string{"application/vnd.verif.sig", "application/vnd.verif.sbom", "application/vnd.good"}
@@ -447,6 +448,12 @@ func Specs(t *rapid.T, o DAGOpts) []NodeSpec {
 	lo := 1
 	if o.MaxNodes >= 6 {
 		lo = 3
+	}
+	blobP := 32
+	if o.BlobRich {
+		if o.MaxNodes >= 8 {
+			lo = 6
+		}
 	}
 	n := rapid.IntRange(lo, o.MaxNodes).Draw(t, "nNodes")
 	var specs []NodeSpec
@@ -521,7 +528,7 @@ func Specs(t *rapid.T, o DAGOpts) []NodeSpec {
 	for i := 0; i < n; i++ {
 		var s NodeSpec
 		kindRoll := rapid.IntRange(0, 99).Draw(t, "kindRoll")
-		if len(plainBlobs) == 0 || kindRoll < 32 {
+		if len(plainBlobs) == 0 || kindRoll < blobP {
 			s = mkBlob("blob", len(plainBlobs) == 0)
 		} else {
 			k := kindRoll
@@ -553,7 +560,11 @@ func Specs(t *rapid.T, o DAGOpts) []NodeSpec {
 				if o.Wide {
 					maxL = 9
 				}
-				nl := rapid.IntRange(0, maxL).Draw(t, "nLayers")
+				minL := 0
+				if o.BlobRich {
+					minL = 3
+				}
+				nl := rapid.IntRange(minL, maxL).Draw(t, "nLayers")
 				for j := 0; j < nl; j++ {
 					if !o.NoDupChild && len(s.Layers) > 0 && rapid.IntRange(0, 5).Draw(t, "dupLayer") == 0 {
 						s.Layers = append(s.Layers, s.Layers[rapid.IntRange(0, len(s.Layers)-1).Draw(t, "dupIdx")])
@@ -586,7 +597,11 @@ func Specs(t *rapid.T, o DAGOpts) []NodeSpec {
 					}
 				}
 			case KArtifact:
-				nl := rapid.IntRange(0, 3).Draw(t, "nBlobs")
+				minB := 0
+				if o.BlobRich {
+					minB = 2
+				}
+				nl := rapid.IntRange(minB, 3+minB/2).Draw(t, "nBlobs")
 				for j := 0; j < nl; j++ {
 					s.Layers = append(s.Layers, pickRef(plainBlobs, "ablob"))
 				}
